@@ -311,6 +311,9 @@ def run_sub(ctx, mod, sub, findings):
         return total, fs
 
     n = sub.examples[ctx.tier]
+    if n <= 0:
+        total.notes.append("not run in the %s tier" % ctx.tier)
+        return total, []
     shards = sub.shards[ctx.tier]
     excluded = set()
     for round_no in range(6):
